@@ -717,8 +717,104 @@ pub(crate) fn m_wrap_step() {
     }
 }
 
+// ---------------------------------------------------------------------
+// Native replay target for mirsym's wrap_hard_wrap: a word of the given pieces is hard-wrapped
+// into a block of the given width; no line may be wider than the block and no character may be
+// lost, duplicated or reordered.
+// ---------------------------------------------------------------------
+pub(crate) fn m_hard_wrap() {
+    let width: usize = kani::any();
+    let line_len: usize = kani::any();
+    let allow_overflow: bool = kani::any();
+    let npieces: u8 = kani::any();
+    kani::assume(width <= 4096 && line_len <= width && npieces <= 4);
+    let mut wb: WrappedBlock<u8> = WrappedBlock::new(width, false, allow_overflow);
+    if line_len > 0 {
+        wb.line.push_str(TaggedString { s: "x".repeat(line_len), tag: 1 });
+    }
+    let mut all = String::new();
+    for i in 0..npieces {
+        let n: u8 = kani::any();
+        kani::assume(n <= 4);
+        let mut piece = String::new();
+        for _ in 0..n {
+            let c: u32 = kani::any();
+            piece.push(char::from_u32(c).unwrap_or('?'));
+        }
+        all.push_str(&piece);
+        wb.wordlen += UnicodeWidthStr::width(piece.as_str());
+        wb.word.push_str(TaggedString { s: piece, tag: 2 + i });
+    }
+    match wb.flush_word_hard_wrap() {
+        Err(_) => {
+            assert!(!allow_overflow, "TooNarrow although overflow is allowed");
+            assert!(all.chars().any(|c| UnicodeWidthChar::width(c).unwrap_or(0) > width), "TooNarrow although every character fits");
+        }
+        Ok(()) => {
+            if !allow_overflow {
+                assert!(wb.line.len <= width, "current line wider than the block: {} > {}", wb.line.len, width);
+                for l in wb.text.iter() {
+                    assert!(l.len <= width, "flushed line wider than the block: {} > {}", l.len, width);
+                }
+            }
+            assert!(wb.line.width() == wb.line.len, "line length bookkeeping differs from the display width");
+            let mut got = String::new();
+            for l in wb.text.iter() {
+                got.extend(l.chars());
+            }
+            got.extend(wb.line.chars());
+            assert!(got == format!("{}{}", "x".repeat(line_len), all), "characters lost, duplicated or reordered: {:?} from {:?}", got, all);
+            assert!(wb.word.is_empty(), "word buffer not emptied");
+        }
+    }
+}
+
+// ---------------------------------------------------------------------
+// Native replay target for mirsym's fmt_links_wrap: one footnote line of the given tagged pieces
+// is wrapped to the width; no emitted line may be wider (when every character fits) and no
+// character may be lost.
+// ---------------------------------------------------------------------
+pub(crate) fn m_fmt_links() {
+    let width: usize = kani::any();
+    let wrap_links: bool = kani::any();
+    let npieces: u8 = kani::any();
+    kani::assume(width <= 4096 && npieces <= 4);
+    let mut opts = RenderOptions::default();
+    opts.wrap_links = wrap_links;
+    let mut r: SubRenderer<PlainDecorator> = SubRenderer::new(width, opts, PlainDecorator::new());
+    let mut line: TaggedLine<()> = TaggedLine::new();
+    let mut all = String::new();
+    for _ in 0..npieces {
+        let n: u8 = kani::any();
+        kani::assume(n <= 4);
+        let mut piece = String::new();
+        for _ in 0..n {
+            let c: u32 = kani::any();
+            piece.push(char::from_u32(c).unwrap_or('?'));
+        }
+        all.push_str(&piece);
+        // push() keeps pieces apart even when their tags are equal, like the decorator's finalise does
+        line.push(TaggedLineElement::Str(TaggedString { s: piece, tag: () }));
+    }
+    let fits = all.chars().all(|c| UnicodeWidthChar::width(c).unwrap_or(0) <= width);
+    r.fmt_links(vec![line]);
+    let mut got = String::new();
+    let mut n = 0;
+    for l in r.lines.iter() {
+        if let RenderLine::Text(tl) = l {
+            n += 1;
+            if wrap_links && fits {
+                assert!(tl.width() <= width, "footnote line wider than the width: {} > {} ({:?})", tl.width(), width, all);
+            }
+            got.extend(tl.chars());
+        }
+    }
+    assert!(n >= 1, "no footnote line emitted");
+    assert!(got == all.replace('\n', " "), "footnote characters lost or reordered: {:?} from {:?}", got, all);
+}
+
 crate::verif_common::registry! {
-    m_wrap_step,
+    m_fmt_links, m_hard_wrap, m_wrap_step,
     t1_width_minus, t2_wrap_width,
     t3_border_join_step, t3_border_stretch, t3_border_merge, t3_border_merge_small, t3_border_glyphs, t3_border_vertical_lines,
     t4_tagged_push_str, t4_tagged_insert_front, t4_tagged_push_char, t4_tagged_frag_consume, t5_annotation_stack, v1_vert_row_borders, 
